@@ -102,6 +102,14 @@ def handleTxt (args : List String) : String :=
       | .ok q => s!"{tohex t}|{showPeriod q}|{tohex q.text}"
       | .error _ => s!"{tohex t}|ERR"
     | none => "BAD"
+  -- `OnDiskStorage.put` names the file `str(period)`, `restore` parses the name back: the same round trip
+  | ["disk", ps] => match parsePeriod? ps with
+    | some p =>
+      let t := p.text
+      match parsePeriod t with
+      | .ok q => s!"{tohex t}|{showPeriod q}|{tohex q.text}"
+      | .error _ => s!"{tohex t}|ERR"
+    | none => "BAD"
   | ["pair", ps, qs] => match parsePeriod? ps, parsePeriod? qs with
     | some p, some q => s!"{tohex p.text}|{tohex q.text}"
     | _, _ => "BAD"
